@@ -291,6 +291,11 @@ def w_two_grids(ctx, rng, i):
     ctx.case(("grids", a, b, shape), sample=dict(sps_sequence=[a, b, a], shape=shape) if i < 2 else None)
 
 
+def FORM_TWINS():
+    import opticomlib.devices as dv
+    return [(dv, ["DAC", "SAMPLER"])]
+
+
 WORKLOADS = [
     Workload("levels", w_levels, 5000, 200000),
     Workload("gauss", w_gauss, 1500, 60000),
